@@ -8,6 +8,7 @@ import HC.Proofs.HashReq
 import HC.Proofs.ReplicaReopen
 import HC.Proofs.CreateTotal
 import HC.Proofs.BlockUpgrade
+import HC.Proofs.BlockGrow
 /-!
 # C03 — any honest proof is accepted and replicas converge to the writer's data
 
@@ -466,5 +467,32 @@ theorem honest_block_with_upgrade_accepted (C : Crypto) (hC : TreeStore.HashWF C
   by
     obtain ⟨cs', h1, h2, h3, h4, h5, h6, _⟩ := BlockUpgrade.honest_old_block_upgrade_accepted C hC bs m n c d held h hm0 hmn hn us hup sig hsl hver i hi
     exact ⟨cs', h1, h2, h3, h4, h5, h6⟩
+
+/-- **block + upgrade in one proof, at core level.**  For every replica state that satisfies the invariants, every block
+    index `i < m` and every upgrade `m → n`: `verify_and_apply_proof` on the writer's combined answer returns `true`;
+    afterwards the replica shows the first `n` blocks of the writer's log with block `i` held — length, byte length,
+    the block's bytes (written at the writer's byte offset, which the replica computes under the *merged* roots:
+    `BlockUpgrade.offset_in_upgraded`), `has`, contiguous length — and the invariants hold again (so the step can be
+    followed by any other exchange, survives a reopen: `replica_reopens`, and is crash-atomic:
+    `C02.replica_blockgrow_crash_atomic`). -/
+theorem block_with_upgrade_applied (C : Crypto) (hC : TreeStore.HashWF C) (hT : TreeStore.TreeWF C) (bs : Array Bytes) (m n : Nat) (c : Core) (d : Disk)
+    (held : Nat → Bool) (h : ReplicaReopen.RP C bs m c d held) (hm0 : 0 < m) (hmn : m < n) (hn : n ≤ bs.size) (us : List (Nat × Nat))
+    (hup : Growth.Up m 0 (RefTree.rootsStack n).reverse us) (sig : Bytes) (hsl : sig.length = 64)
+    (hver : C.verify c.publicKey (Growth.signableAt C bs n c.tree.fork) sig = true) (i : Nat) (hi : i < m) :
+    let st := c.verifyAndApply C d (BlockGrow.honestBlockGrowth C bs c d i m n us sig)
+    st.result = .ok true
+      ∧ st.core.tree.length = n ∧ st.core.tree.byteLength = Offsets.psum bs n
+      ∧ (st.core.getBlock (d.applyAll st.journal) i).result = .ok (some (bs.getD i []))
+      ∧ (∀ j, held j = true → (st.core.getBlock (d.applyAll st.journal) j).result = .ok (some (bs.getD j [])))
+      ∧ (∀ j, st.core.has j = (held j || j == i))
+      ∧ ReplicaReopen.RP C bs n st.core (d.applyAll st.journal) (fun j => held j || j == i) := by
+  intro st
+  obtain ⟨r1, r2, _, _⟩ := BlockGrow.rp_blockgrow C hC hT bs m n c d held h hm0 hmn hn us hup sig hsl hver i hi
+  refine ⟨r1, r2.rep.closed.sparse.length, r2.rep.bytes, ?_, ?_, ?_, r2⟩
+  · exact Growth.get_held_at C bs n _ _ _ r2.rep i (by simp)
+  · intro j hj
+    exact Growth.get_held_at C bs n _ _ _ r2.rep j (by simp [hj])
+  · intro j
+    simpa [Core.has] using r2.rep.bits j
 
 end HC.C03
